@@ -191,7 +191,7 @@ func validateHOTP(_ js.Value, args []js.Value) any {
 			continue
 		}
 
-		valid, err := otp.ValidateOTPWasm(code, secretBuf, uint64(counter), digits, algo)
+		valid, err := otp.ValidateOTPWasm(code, secretBuf, uint64(currCounter), digits, algo)
 		if err == nil && valid {
 			log(fmt.Sprintf("Code %s is valid at counter %d", code, counter))
 			return js.ValueOf(true)
